@@ -75,7 +75,7 @@ def coq_runcase(I, case, script):
                MUTATE_MODES[opts.get("mutate", False)], coq_bool(opts.get("test_ids", True))))
 
 
-HEADER_MON = "From PFDL Require Import Monitors MonitorsSeq MonitorsFork MonitorsDecide NetRun.\nSet Printing Depth 100000.\nSet Printing Width 200.\n"
+HEADER_MON = "From PFDL Require Import Monitors MonitorsSeq MonitorsFork MonitorsDecide MonitorsParams NetRun.\nSet Printing Depth 100000.\nSet Printing Width 200.\n"
 HEADER = "From PFDL Require Import RunCase.\nSet Printing Depth 100000.\nSet Printing Width 200.\n"
 
 
